@@ -49,6 +49,8 @@ def _nontrivial(prog):
         pd = s.get("prev_desc")
         if pd is None:
             continue
+        if s["op"] == "eq" and not s["events"]:
+            continue
         if s["op"] == "eq":
             new = s["events"][0]
             if gv.build(pd) != gv.build(new) and (pd[0] in CONTAINER or new[0] in CONTAINER):
